@@ -36,6 +36,14 @@ def const_of(x):
     return None
 
 
+class Event(tuple):
+    """(name, args) pair that also remembers the memory at the time of the call"""
+    def __new__(cls, name, args, mem=None):
+        e = super().__new__(cls, (name, args))
+        e.mem = mem
+        return e
+
+
 class Region:
     __slots__ = ('lo', 'hi', 'name', 'kind', 'owner')
 
@@ -606,7 +614,7 @@ class Engine:
                 env[dsts[0]] = dst
             return None
         evname = short if fn is not None else name
-        st.events.append((evname, [simp(a) for a in args]))
+        st.events.append(Event(evname, [simp(a) for a in args], st.mem))
         rets = sig[1]
         if len(rets) != len(dsts):
             raise Unsupported('call result arity mismatch: ' + name)
